@@ -1247,3 +1247,156 @@ Check C04_no_panic_inventory :
       /\ C04_Table.count_kind C04_Table.KByType = 49%nat /\ C04_Table.count_kind C04_Table.KDocumented = 2%nat
       /\ C04_Table.count_kind C04_Table.KHarness = 4%nat).
 Print Assumptions C04_no_panic_inventory.
+
+(* ================================================================== cost of the remaining states (task c04fin) *)
+From RU Require Proofs.C04_CostAuth Proofs.C04_CostMime Proofs.C04_CostIdna.
+
+(* the AUTHORITY states of the URL parser (Proofs/C04_CostAuth.v; cost semantics of Model/Cost.v).
+   userinfo: the two passes (search for the last '@', then the encoding pass) - twins equal to the model functions,
+   at most 14 |input| + 4 steps.  host and port: the scans are twins of host_scan / file_host_scan / parse_port_loop;
+   Host::parse / Host::parse_opaque and Display are parameters of the parser model, so their cost enters as the
+   parameters hpc / hpoc (steps of the two host parsers on a text - Host::parse contains the IDNA processing) and the
+   length of the Display text: the state costs at most 3 |input| + 49 + the cost of the host parser on the host text
+   (a piece of the input) + the Display text; with host functions that are linear (a, b; Display d, e) it is linear. *)
+Theorem C04_cost_authority :
+  (forall special l count last,
+     fst (C04_CostAuth.scan_last_at_c special l count last) = scan_last_at special l count last
+     /\ snd (C04_CostAuth.scan_last_at_c special l count last) <= nlen l + 1)
+  /\ (forall l n ser uend hpw hun, usv_list l ->
+     fst (C04_CostAuth.userinfo_loop_c l n ser uend hpw hun) = userinfo_loop l n ser uend hpw hun
+     /\ snd (C04_CostAuth.userinfo_loop_c l n ser uend hpw hun) <= 13 * nlen l + 1)
+  /\ (forall st ser l, usv_list l -> C04_CostAuth.parse_userinfo_cost st ser l <= 14 * nlen l + 4)
+  /\ (forall special l inside acc,
+     fst (C04_CostAuth.host_scan_c special inside acc l) = host_scan special inside acc l
+     /\ snd (C04_CostAuth.host_scan_c special inside acc l) <= 2 * nlen l + 1)
+  /\ (forall l acc,
+     fst (C04_CostAuth.file_host_scan_c acc l) = file_host_scan acc l
+     /\ snd (C04_CostAuth.file_host_scan_c acc l) <= 2 * nlen l + 1)
+  /\ (forall ctx l port any,
+     fst (C04_CostAuth.parse_port_loop_c ctx l port any) = parse_port_loop ctx l port any
+     /\ snd (C04_CostAuth.parse_port_loop_c ctx l port any) <= nlen l + 1)
+  /\ (forall hp hpo hd hpc hpoc ctx st l,
+     nlen (C04_CostAuth.host_text st l) <= nlen l
+     /\ C04_CostAuth.parse_host_and_port_cost hp hpo hd hpc hpoc ctx st l
+        <= 3 * nlen l + 49 + hpc (C04_CostAuth.host_text st l) + hpoc (C04_CostAuth.host_text st l)
+           + match parse_host hp hpo st l with POk (host, _) => nlen (hd host) | _ => 0 end)
+  /\ (forall hp hpo hd hpc hpoc ctx st l a b d e,
+     (forall t, hpc t <= a * nlen t + b) -> (forall t, hpoc t <= a * nlen t + b) ->
+     (forall t h, hp t = Ok h \/ hpo t = Ok h -> nlen (hd h) <= d * nlen t + e) -> nlen (hd (HDomain [])) <= e ->
+     C04_CostAuth.parse_host_and_port_cost hp hpo hd hpc hpoc ctx st l <= (3 + 2 * a + d) * nlen l + (49 + 2 * b + e)).
+Proof.
+  split; [exact C04_CostAuth.scan_last_at_c_spec|]. split; [exact C04_CostAuth.userinfo_loop_c_spec|].
+  split; [exact C04_CostAuth.parse_userinfo_linear|].
+  split; [intros special l inside acc; destruct (C04_CostAuth.host_scan_c_spec special l inside acc) as (H1 & H2 & _); exact (conj H1 H2)|].
+  split; [intros l acc; destruct (C04_CostAuth.file_host_scan_c_spec l acc) as (H1 & H2 & _); exact (conj H1 H2)|].
+  split; [exact C04_CostAuth.parse_port_loop_c_spec|].
+  split; [intros hp hpo hd hpc hpoc ctx st l;
+          exact (conj (C04_CostAuth.host_text_len hp hpo hpc hpoc st l) (C04_CostAuth.parse_host_and_port_cost_le hp hpo hd hpc hpoc ctx st l))|].
+  exact C04_CostAuth.parse_host_and_port_linear.
+Qed.
+Check C04_cost_authority :
+  (forall special l count last,
+     fst (C04_CostAuth.scan_last_at_c special l count last) = scan_last_at special l count last
+     /\ snd (C04_CostAuth.scan_last_at_c special l count last) <= nlen l + 1)
+  /\ (forall l n ser uend hpw hun, usv_list l ->
+     fst (C04_CostAuth.userinfo_loop_c l n ser uend hpw hun) = userinfo_loop l n ser uend hpw hun
+     /\ snd (C04_CostAuth.userinfo_loop_c l n ser uend hpw hun) <= 13 * nlen l + 1)
+  /\ (forall st ser l, usv_list l -> C04_CostAuth.parse_userinfo_cost st ser l <= 14 * nlen l + 4)
+  /\ (forall special l inside acc,
+     fst (C04_CostAuth.host_scan_c special inside acc l) = host_scan special inside acc l
+     /\ snd (C04_CostAuth.host_scan_c special inside acc l) <= 2 * nlen l + 1)
+  /\ (forall l acc,
+     fst (C04_CostAuth.file_host_scan_c acc l) = file_host_scan acc l
+     /\ snd (C04_CostAuth.file_host_scan_c acc l) <= 2 * nlen l + 1)
+  /\ (forall ctx l port any,
+     fst (C04_CostAuth.parse_port_loop_c ctx l port any) = parse_port_loop ctx l port any
+     /\ snd (C04_CostAuth.parse_port_loop_c ctx l port any) <= nlen l + 1)
+  /\ (forall hp hpo hd hpc hpoc ctx st l,
+     nlen (C04_CostAuth.host_text st l) <= nlen l
+     /\ C04_CostAuth.parse_host_and_port_cost hp hpo hd hpc hpoc ctx st l
+        <= 3 * nlen l + 49 + hpc (C04_CostAuth.host_text st l) + hpoc (C04_CostAuth.host_text st l)
+           + match parse_host hp hpo st l with POk (host, _) => nlen (hd host) | _ => 0 end)
+  /\ (forall hp hpo hd hpc hpoc ctx st l a b d e,
+     (forall t, hpc t <= a * nlen t + b) -> (forall t, hpoc t <= a * nlen t + b) ->
+     (forall t h, hp t = Ok h \/ hpo t = Ok h -> nlen (hd h) <= d * nlen t + e) -> nlen (hd (HDomain [])) <= e ->
+     C04_CostAuth.parse_host_and_port_cost hp hpo hd hpc hpoc ctx st l <= (3 + 2 * a + d) * nlen l + (49 + 2 * b + e)).
+Print Assumptions C04_cost_authority.
+
+(* MIME type parsing (Proofs/C04_CostMime.v): for a &str that parses, the cost is at most
+   (14 + P) * (|input| + 1) + 4 where P is the number of parameters of the RESULT - linear whenever the number of
+   accepted parameters is bounded.  The product term is real: finding F-C04-9 - with n pairwise distinct parameter
+   names the cost is at least n (n - 1) / 2 (contains() scans the parameters collected so far), shown by computation
+   for n = 50, 100, 200 together with the linear behaviour of the same-name family. *)
+Theorem C04_cost_mime :
+  (forall s m, usv_list s -> Mime.parse s = Mime.Ok (Some m) ->
+     C04_CostMime.mime_parse_cost s <= (14 + C04_CostMime.plen (Mime.m_params m)) * (nlen s + 1) + 4)
+  /\ ((C04_CostMime.n_params (C04_CostMime.mime_distinct 50) = 50
+       /\ 50 * 49 <= 2 * C04_CostMime.mime_parse_cost (C04_CostMime.mime_distinct 50))
+      /\ (C04_CostMime.n_params (C04_CostMime.mime_distinct 100) = 100
+          /\ 100 * 99 <= 2 * C04_CostMime.mime_parse_cost (C04_CostMime.mime_distinct 100))
+      /\ (C04_CostMime.n_params (C04_CostMime.mime_distinct 200) = 200
+          /\ 200 * 199 <= 2 * C04_CostMime.mime_parse_cost (C04_CostMime.mime_distinct 200)))
+  /\ ((C04_CostMime.n_params (C04_CostMime.mime_same 50) = 1
+       /\ C04_CostMime.mime_parse_cost (C04_CostMime.mime_same 50) <= 15 * (nlen (C04_CostMime.mime_same 50) + 1) + 4)
+      /\ (C04_CostMime.n_params (C04_CostMime.mime_same 100) = 1
+          /\ C04_CostMime.mime_parse_cost (C04_CostMime.mime_same 100) <= 15 * (nlen (C04_CostMime.mime_same 100) + 1) + 4)
+      /\ (C04_CostMime.n_params (C04_CostMime.mime_same 200) = 1
+          /\ C04_CostMime.mime_parse_cost (C04_CostMime.mime_same 200) <= 15 * (nlen (C04_CostMime.mime_same 200) + 1) + 4)).
+Proof.
+  exact (conj C04_CostMime.mime_parse_cost_le
+        (conj C04_CostMime.f_c04_9_quadratic_50_100_200 C04_CostMime.same_name_linear_50_100_200)).
+Qed.
+Check C04_cost_mime :
+  (forall s m, usv_list s -> Mime.parse s = Mime.Ok (Some m) ->
+     C04_CostMime.mime_parse_cost s <= (14 + C04_CostMime.plen (Mime.m_params m)) * (nlen s + 1) + 4)
+  /\ ((C04_CostMime.n_params (C04_CostMime.mime_distinct 50) = 50
+       /\ 50 * 49 <= 2 * C04_CostMime.mime_parse_cost (C04_CostMime.mime_distinct 50))
+      /\ (C04_CostMime.n_params (C04_CostMime.mime_distinct 100) = 100
+          /\ 100 * 99 <= 2 * C04_CostMime.mime_parse_cost (C04_CostMime.mime_distinct 100))
+      /\ (C04_CostMime.n_params (C04_CostMime.mime_distinct 200) = 200
+          /\ 200 * 199 <= 2 * C04_CostMime.mime_parse_cost (C04_CostMime.mime_distinct 200)))
+  /\ ((C04_CostMime.n_params (C04_CostMime.mime_same 50) = 1
+       /\ C04_CostMime.mime_parse_cost (C04_CostMime.mime_same 50) <= 15 * (nlen (C04_CostMime.mime_same 50) + 1) + 4)
+      /\ (C04_CostMime.n_params (C04_CostMime.mime_same 100) = 1
+          /\ C04_CostMime.mime_parse_cost (C04_CostMime.mime_same 100) <= 15 * (nlen (C04_CostMime.mime_same 100) + 1) + 4)
+      /\ (C04_CostMime.n_params (C04_CostMime.mime_same 200) = 1
+          /\ C04_CostMime.mime_parse_cost (C04_CostMime.mime_same 200) <= 15 * (nlen (C04_CostMime.mime_same 200) + 1) + 4)).
+Print Assumptions C04_cost_mime.
+
+(* the two OUTPUT WALKS of Uts46::process (Proofs/C04_CostIdna.v).  wsize = what a walk hands to the sink (one step per
+   write call plus the code points written; a label written as Unicode is one write_char per element).  For ANY labels,
+   already_punycode list, start state and policy: the writes of a walk are bounded by the prefix of the input, flushed at
+   most once (fl_cost), plus, per label, twice the label, twice its mixed-case source slice, the encoder output and a
+   constant (wbound) - no term is multiplied by the number of labels.  The Punycode encoder itself (quadratic) has no
+   cost twin; what is proved about it is the cap (third part): every label of the domain_buffer that the marking run
+   leaves is ASCII (never encoded), marked with U+FFFD (never encoded) or at most 1000 scalar values long - for every
+   byte input, deny list, hyphen mode and every adapter returning scalar values; a walk encodes a label at most once. *)
+Theorem C04_cost_uts46_walks : forall cfg,
+  (forall ff oau dn tld bidi he labels aps seen pte flushed huo,
+     C04_CostIdna.wsize (fst (Uts46.walk1 cfg ff oau dn tld bidi he labels aps seen pte flushed huo))
+     <= C04_CostIdna.fl_cost dn flushed + C04_CostIdna.wbound cfg labels aps)
+  /\ (forall dn he labels aps seen pte flushed,
+     C04_CostIdna.wsize (fst (Uts46.walk2 cfg dn he labels aps seen pte flushed))
+     <= C04_CostIdna.fl_cost dn flushed + C04_CostIdna.wbound cfg labels aps)
+  /\ (forall A hy deny d, Idna_WalkEnc.AdapterUSV A ->
+      match Uts46.process_inner A cfg false hy deny d with
+      | Uts46.IRes _ _ _ db _ => Forall Idna_WalkEnc.capped (Uts46.split_on Uts46.DOT db)
+      | Uts46.IPanic _ => True
+      end).
+Proof.
+  intros cfg. split; [exact (C04_CostIdna.walk1_wsize cfg)|]. split; [exact (C04_CostIdna.walk2_wsize cfg)|].
+  intros A hy deny d HU. exact (C04_CostIdna.labels_capped A cfg HU hy deny d).
+Qed.
+Check C04_cost_uts46_walks : forall cfg,
+  (forall ff oau dn tld bidi he labels aps seen pte flushed huo,
+     C04_CostIdna.wsize (fst (Uts46.walk1 cfg ff oau dn tld bidi he labels aps seen pte flushed huo))
+     <= C04_CostIdna.fl_cost dn flushed + C04_CostIdna.wbound cfg labels aps)
+  /\ (forall dn he labels aps seen pte flushed,
+     C04_CostIdna.wsize (fst (Uts46.walk2 cfg dn he labels aps seen pte flushed))
+     <= C04_CostIdna.fl_cost dn flushed + C04_CostIdna.wbound cfg labels aps)
+  /\ (forall A hy deny d, Idna_WalkEnc.AdapterUSV A ->
+      match Uts46.process_inner A cfg false hy deny d with
+      | Uts46.IRes _ _ _ db _ => Forall Idna_WalkEnc.capped (Uts46.split_on Uts46.DOT db)
+      | Uts46.IPanic _ => True
+      end).
+Print Assumptions C04_cost_uts46_walks.
